@@ -363,7 +363,7 @@ class Gen(object):
     if r < 0.62 and self.p.use_global and not self.p.pure:
       return self.rng.choice(['G1', 'G2', 'zG3'])
     if r < 0.70 and self.p.use_attrs:
-      return self.rng.choice(['o.p', 'o.q', "d['k']", "d['m']"])
+      return self.rng.choice(['o.p', 'o.q', "d['k']", "d['m']", "d['k.m']"])
     return str(self.rng.choice([0, 1, 2, 3, 5, 7, -1, -2]))
 
   def expr(self, fc, blk, depth=0):
@@ -598,7 +598,13 @@ class Gen(object):
   def s_attrassign(self, fc, blk, ind, depth):
     if self.p.pure and (fc.level > 0 or fc.is_helper):
       return self.s_assign(fc, blk, ind, depth)   # pure callees: no hidden side effects
-    t = self.rng.choice(['o.p', 'o.q', "d['k']", "d['m']"])
+    t = self.rng.choice(['o.p', 'o.q', "d['k']", "d['m']", "d['k.m']", "d['k[0]']"])
+    if not self.p.pure and self.chance(0.15):
+      # element state whose index goes through an attribute of an object that is bound in this very block
+      pk = self.fresh('pk')
+      self.emit(ind, '%s = Obj(%s %% 3, 0)' % (pk, self.atom(fc, blk, False)))
+      self.emit(ind, 'd[%s.p] = %s' % (pk, self.expr(fc, blk, 1)))
+      return
     if self.chance(0.3):
       self.emit(ind, '%s += %s' % (t, self.expr(fc, blk, 1)))
     else:
@@ -1163,8 +1169,8 @@ def gen_inputs(seed, n):
     b = rng.choice([-1, 0, 1, 2, 4])
     c = rng.choice([0, 1, 3, 6])
     xs = [rng.choice([-3, 0, 1, 2, 4, 7]) for _ in range(rng.choice([0, 0, 1, 2, 3, 5]))]
-    out.append('(%d, %d, %d, %r, Obj(%d, %d), {"k": %d, "m": %d})' % (
-        a, b, c, xs, rng.choice([0, 1, 2]), rng.choice([0, 5]), rng.choice([0, 1, 3]), rng.choice([-1, 2])))
+    out.append('(%d, %d, %d, %r, Obj(%d, %d), {"k": %d, "m": %d, "k.m": %d, "k[0]": 0})' % (
+        a, b, c, xs, rng.choice([0, 1, 2]), rng.choice([0, 5]), rng.choice([0, 1, 3]), rng.choice([-1, 2]), rng.choice([0, 4])))
   return out
 
 
